@@ -306,8 +306,16 @@ func goOracleList(cs *gen.Case, rl *zoekt.RepoList, sh *shard, q *nq, c ctxSpec,
 		return
 	}
 	// expected entries: accessible, not tombstoned, and selected by the query
+	// the names of the repositories in which the context finds a document (List selects by name)
+	found := map[string]bool{}
+	for _, d := range sh.Docs {
+		rp := sh.Repos[d.Repo]
+		if !rp.Tomb && c.allowed(strict, rp.Tenant) && !d.D.FTomb && q.eval(rp, d.D, nil) {
+			found[rp.Name] = true
+		}
+	}
 	var want []string
-	for i, rp := range sh.Repos {
+	for _, rp := range sh.Repos {
 		if rp.Tomb || !c.allowed(strict, rp.Tenant) {
 			continue
 		}
@@ -316,11 +324,7 @@ func goOracleList(cs *gen.Case, rl *zoekt.RepoList, sh *shard, q *nq, c ctxSpec,
 		case "true":
 			sel = true
 		case "other":
-			for _, d := range sh.Docs {
-				if d.Repo == i && !d.D.FTomb && q.eval(rp, d.D, nil) {
-					sel = true
-				}
-			}
+			sel = found[rp.Name]
 		}
 		if sel {
 			want = append(want, fmt.Sprintf("%s:%d", rp.Name, rp.ID))
@@ -330,19 +334,44 @@ func goOracleList(cs *gen.Case, rl *zoekt.RepoList, sh *shard, q *nq, c ctxSpec,
 	for _, e := range rl.Repos {
 		got = append(got, fmt.Sprintf("%s:%d", e.Repository.Name, e.Repository.ID))
 	}
-	for id := range rl.ReposMap {
+	if len(rl.ReposMap) > 0 || (len(rl.Repos) < len(want)) {
+		// ReposMap mode: entries are keyed by id (ids can collide: one entry); compare as sets of ids
+		gotIDs, wantIDs := map[uint32]bool{}, map[uint32]bool{}
+		for id := range rl.ReposMap {
+			gotIDs[id] = true
+		}
+		for _, e := range rl.Repos {
+			gotIDs[e.Repository.ID] = true
+		}
 		for _, rp := range sh.Repos {
-			if rp.ID == id && !rp.Tomb && c.allowed(strict, rp.Tenant) {
-				got = append(got, fmt.Sprintf("%s:%d", rp.Name, rp.ID))
+			if rp.Tomb || !c.allowed(strict, rp.Tenant) {
+				continue
+			}
+			if kind == "true" || (kind == "other" && found[rp.Name]) {
+				wantIDs[rp.ID] = true
 			}
 		}
+		if fmt.Sprint(sortedIDs(gotIDs)) != fmt.Sprint(sortedIDs(wantIDs)) {
+			cs.Go = fmt.Sprintf("context %s: listed ids %v, expected %v", c, sortedIDs(gotIDs), sortedIDs(wantIDs))
+			cs.Key = "list-differs-from-naive-evaluator"
+		}
+		return
 	}
 	sort.Strings(want)
 	sort.Strings(got)
-	if strings.Join(got, ",") != strings.Join(want, ",") || len(rl.Repos)+len(rl.ReposMap) != len(want) {
+	if strings.Join(got, ",") != strings.Join(want, ",") {
 		cs.Go = fmt.Sprintf("context %s: listed %v (+%d map entries), expected %v", c, got, len(rl.ReposMap), want)
 		cs.Key = "list-differs-from-naive-evaluator"
 	}
+}
+
+func sortedIDs(m map[uint32]bool) []int {
+	var out []int
+	for id := range m {
+		out = append(out, int(id))
+	}
+	sort.Ints(out)
+	return out
 }
 
 // accessCases: tenant.HasAccess itself against the model, for every mode / context / owner.
@@ -401,7 +430,7 @@ func main() {
 	accessCases()
 	nWorlds := f.N(30, 400)
 	for i := 0; i < nWorlds; i++ {
-		wd := genWorld(r, i%5 != 4, fmt.Sprintf("w%d", i))
+		wd := genWorld(r, i%5 != 4, fmt.Sprintf("w%d", i), i%6 == 3)
 		runShardCases(r.Fork(), &wd, i%8 != 7, 3, nil)
 	}
 	nDirs := f.N(4, 40)
